@@ -252,6 +252,12 @@ def run_worker(pid: str, tier: str, seed: int, shard: int, nshards: int, deadlin
     torch.set_num_threads(1)
     import hypothesis
     from hypothesis import given
+    try:        # a runaway case must end as a harness error (exit 2) of this worker, not as an out-of-memory machine
+        import resource
+        cap = int(os.environ.get("VERIF_WORKER_MEM_GB", "10")) << 30
+        resource.setrlimit(resource.RLIMIT_AS, (cap, cap))
+    except Exception:  # noqa: BLE001
+        pass
 
     mod = importlib.import_module("pbt.props." + pid.lower())
     sites = getattr(mod, "SITES", {})
